@@ -179,6 +179,11 @@ def main():
         rnd = random.Random(seed * 7919 + rd)
         nthreads = 8 if mode == "stress" else 2
         progs = [make_prog(rnd, chr(ord("a") + t), 40 if mode == "stress" else rnd.choice((2, 3, 4))) for t in range(nthreads)]
+        if rnd.random() < 0.5:
+            # collision-prone round: every thread runs the SAME operations (first access to the same shared, freshly derived
+            # objects happens in several threads at once); only the big-quote markers stay per thread
+            progs = [[(op[0], chr(ord("a") + t)) + tuple(op[2:]) if op[0] == "bigquote" else op for op in progs[0]]
+                     for t in range(nthreads)]
         events = []
         # phase 0: sequential reference (fresh caches), run twice in different thread order
         clear_all_lru(yarl)
@@ -207,10 +212,17 @@ def main():
         else:
             per = [[] for _ in range(nthreads)]
             # a bounded number of pre-emptions: long runs of one thread with a few switches
-            k = rnd.choice((0, 1, 2, 3))
-            switch_at = sorted(rnd.sample(range(1, 1200), k))
+            # measure the number of yield points of this round (thread 0 to completion, then thread 1) ...
+            probe = Sched([0] * 100000, root)
+            probe.run([lambda t=t: run_prog(yarl, progs[t], t, "sched-probe", []) for t in range(nthreads)])
+            clear_all_lru(yarl)
+            yarl.cache_configure()
+            total = max(2, probe.yields)
+            # ... and place the pre-emptions uniformly over it
+            k = rnd.choice((1, 1, 2, 2, 3))
+            switch_at = set(rnd.sample(range(1, total), min(k, total - 1)))
             choices, cur = [], rnd.randrange(2)
-            for i in range(1500):
+            for i in range(total + 50):
                 if i in switch_at:
                     cur = 1 - cur
                 choices.append(cur)
